@@ -199,10 +199,31 @@ seq(prop="C15", lean_targets=["TransportVerif.Props.C15"], pkg="vnet", run="^Tes
          "the implementation's own forward trace is judged against burst + rate*dt (largest values in force), plus order and duplicates. non-trivial = datagrams wait in the queue, "
          "several leave at once, the queue overflows, rate or burst change, arrival after an idle period or in a burst; distinct = hash of the ops text",
     design_ref="DESIGN.md 7.15", technique="Lean 4 proof over exact rationals: token-bucket invariant (0 <= tokens <= burst) and the interval bound by induction over timed arrival lists; the same model instantiated with IEEE doubles is compared bit for bit with tbf.go under a virtual clock",
-    level_text="PENDING", level_note="PENDING",
+    level_text="Theorems on the exact-arithmetic (Rat) instance of Model/TBF.lean (Props/C15.lean): refill_bounds (0 <= tokens <= maxBurst after every refill); interval_bound — from ANY state just after an arrival's refill and for ANY continuation (timed arrivals of any sizes, run-time rate/burst changes within [0,Rmax]/[0,Bmax], drains) the bytes forwarded over the interval are at most the tokens at its start plus Rmax times its length, hence <= Bmax + Rmax*dt/8: every sub-interval of every run that starts at an arrival; run_bound for whole runs; forwarded_is_ordered_sublist (in order, no duplicate, unmodified); dropped_only_when_full / full_queue_drops (conservation: nothing is discarded unless the byte queue is full). The IEEE-double instance of the same definitions is compared bit for bit (token count) with tbf.go under the virtual clock, and the implementation's own forward trace is judged over every sub-interval.", level_note="Trusted: Lean kernel + standard axioms; float64 rounding is NOT covered by the theorem (exact rationals): the oracle judges the real trace with 0.001 byte slack and the driver counts Float/Rat decision divergences; vtime + the time rewrite of vnet/tbf.go; quiescence of the filter goroutine read from runtime.Stack. The filter only forwards on arrivals (no timer): 'eventually forwarded' is not part of C15.",
     trusted=LEAN_TB + ["Model/TBF.lean is generic in the number type: the Float instance is validated against tbf.go (forwarded datagrams per arrival, token count bit for bit, queue) under the virtual clock vtime injected by the source rewrite; the Rat instance carries the theorems",
                        "float64 rounding: the theorem is about exact rationals; the oracle judges the implementation's own trace with 0.001 byte of slack, and cases where the Float and Rat instances decide differently are counted (tag float-rat-divergence)",
                        "vtime (virtual clock) and the regex-based time rewrite of vnet/tbf.go; quiescence of the filter goroutine read from runtime.Stack"],
     assumptions=["arrivals are sequential (one onInboundChunk at a time); concurrent senders only interleave at the unbuffered channel"])
+
+def _yield(rel, funcs):
+    from . import core
+    return lambda work: core.yield_overlay(work, rel, funcs)
+
+
+seq(prop="C08", lean_targets=["TransportVerif.Props.C08"], pkg="packetio", run="^TestVerifBufSync$", component="bufsync",
+    files=["sync_test.go"], quick_n=600, thorough_n=30000, search_n=3000,
+    variants=[dict(overlay_fn=_yield("packetio/buffer.go", ["Read", "Write", "Close"]))],
+    nontrivial=["two-readers-in-window", "take-and-repost", "write-token-dropped", "write-handoff", "close-wakes", "select-parks", "select-closed"],
+    rule="random controlled schedules of 1..4 readers, 0..4 writers, 0..2 closers on one Buffer holding 0..2 packets at the start; a schedule is a sequence of grants at the yield "
+         "points inserted before every mutex.Lock() and before the blocking select of Read; after every grant the positions of all goroutines (at which yield, parked in the runtime, "
+         "finished with which result) and Count are compared with the transition-system model; at quiescence the implementation's own final positions are judged (no reader parked "
+         "while a packet is buffered or after Close). non-trivial = two readers between unlock and select at once, a reader passing the token on, a dropped token, a hand-off to a "
+         "parked reader, Close waking readers; distinct = hash of the schedule",
+    design_ref="DESIGN.md 7.8", technique="Lean 4 proof: step invariant of a transition system for any number of reader/writer/closer threads (no stranded reader at quiescence); schedules replayed on the real Buffer under a controlled scheduler (source rewritten with yield points) and compared step by step",
+    level_text="PENDING", level_note="PENDING",
+    trusted=LEAN_TB + ["hand-written transition system Model/BufferSync.lean; tied to buffer.go by (a) the synchronisation skeleton extracted by vrewrite from the working tree and (b) controlled-schedule runs on the real Buffer compared after every grant",
+                       "Go runtime semantics as modelled: a channel send goes to the longest-waiting receiver before the buffer; close wakes all receivers; mutex regions are atomic",
+                       "vrewrite (AST pass inserting yields), cosched (controller; parking read from runtime.Stack)"],
+    assumptions=["the theorem is about quiescent states; scheduler fairness (a runnable goroutine eventually runs) is assumed", "read deadlines are covered by C10, not by this transition system"])
 
 ALL = SEQ
